@@ -22,6 +22,8 @@ import (
 //	0: on entry (before the first lock)           a,b,c = 0
 //	1: after the snapshot, lock released          a,b,c = len(cancels), len(peerEntries), len(bcstEntries)
 //	2: after the message was filled, before the second lock   a,b,c = sentCancels, sentPeerEntries, sentBcstEntries
+//	3: after the second locked section, before returning the message   a,b,c = 0
+//	4: in sendMessage after SendMsg / onSent, before the remaining work is signalled   a = pendingWorkCount
 //
 // The hook may block; it is called without wllock held.
 var VerifHook func(point, a, b, c int)
@@ -86,3 +88,7 @@ func (mq *MessageQueue) VerifState() VerifState {
 // VerifWorkSignalled reports whether a work signal is waiting in outgoingWork (signalWorkReady has been
 // called since the run loop last took one).
 func (mq *MessageQueue) VerifWorkSignalled() bool { return len(mq.outgoingWork) > 0 }
+
+// VerifMsgEmpty reports whether the sender's message is empty; only meaningful while the sender is
+// parked at a schedule point.
+func (mq *MessageQueue) VerifMsgEmpty() bool { return mq.msg.Empty() }
